@@ -393,7 +393,7 @@ def build_class(prog, rec, W, decorated=True):
             run_steps(inst, prog['steps'], seen)
             ending = prog.get('ending', 'return')
             if ending == 'raise':
-                raise V.Err('ending')
+                raise V.ERRS[prog.get('ending_exc', 'Err')]('ending')
             if ending == 'interrupt':
                 raise V.Interrupt('ending')
             return {'seen': seen, 'result': V.build(prog.get('result'))}
@@ -711,7 +711,8 @@ def step_lists(draw, ins, outs, values, max_steps, in_behs, out_behs, threads=Tr
 @st.composite
 def programs(draw, values=None, max_steps=10, in_behs=('ret', 'ret', 'ret', 'raise', 'nested'),
              out_behs=('ret', 'ret', 'ret', 'raise'), endings=('return', 'return', 'raise'), threads=True,
-             in_extra=None, out_extra=None, params=None, extractors=('none',), swallowed_interrupts=False):
+             in_extra=None, out_extra=None, params=None, extractors=('none',), swallowed_interrupts=False,
+             ending_excs=('Err',)):
     values = values if values is not None else V.small_values
     ins, outs = fix_decls(draw(st.lists(input_decls(in_extra), max_size=3)), draw(st.lists(output_decls(out_extra), max_size=3)))
     steps = draw(step_lists(ins, outs, values, max_steps, in_behs, out_behs, threads=threads)) if (ins or outs) else []
@@ -720,6 +721,8 @@ def programs(draw, values=None, max_steps=10, in_behs=('ret', 'ret', 'ret', 'rai
                 extractor=draw(st.sampled_from(extractors)))
     if params is not None:
         prog['params'] = draw(params)
+    if len(ending_excs) > 1:
+        prog['ending_exc'] = draw(st.sampled_from(list(ending_excs)))    # what a raising operation raises
     calls = [s for s in steps if s['t'] in ('in', 'out')]
     if swallowed_interrupts and calls and draw(st.sampled_from([False, False, True])):
         # an intercepted call is cut short by an interrupt-style exception that the operation swallows
